@@ -97,25 +97,16 @@ EXPORT errno_t _strchr_s_chk(const char *restrict dest, rsize_t dmax,
         return (ESLEMAX);
     }
 
-    /* compares wordwise */
-    /* XXX gcc-4.4 fails with logical ‘&&’ with non-zero constant
-       will always evaluate as true.
-       Expands to *result = (char*)(__extension__ (__builtin_constant_p (ch)
-        && !__builtin_constant_p ((const char *)dest) && (ch) == '\0'
-          ? (char *) __rawmemchr ((const char *)dest, ch)
-          : __builtin_strchr ((const char *)dest, ch)));
-    */
-#if defined(__GNUC__) && (((__GNUC__ * 100) + __GNUC_MINOR__) == 404)
-    *resultp = (char *)__builtin_strchr((const char *)dest, ch);
-#else
-    *resultp = (char *)strchr((const char *)dest, ch);
-#endif
+    /* look at the string inside dmax only: strchr() runs on to the NUL */
+    {
+        const rsize_t len = strnlen_s(dest, dmax);
+        if (ch == 0)
+            *resultp = len < dmax ? (char *)dest + len : NULL;
+        else
+            *resultp = (char *)memchr((const void *)dest, ch, len);
+    }
 
     if (!*resultp)
         return (ESNOTFND);
-    else if ((long)(*resultp - dest) >= (long)dmax) {
-        *resultp = NULL;
-        return (ESNOTFND);
-    }
     return (EOK);
 }
